@@ -51,7 +51,7 @@ def match_known(known, pid, name):
     return None
 
 
-def run_replayer(pid, failed, seed, tier, outdir):
+def run_replayer(pid, failed, seed, tier, outdir, budget=None, known_keys=()):
     """Native search with the property's own oracle (runs under the interpreter the test-suite uses)."""
     script = os.path.join(ROOT, 'replay', pid + '.py')
     if not os.path.exists(script):
@@ -60,7 +60,7 @@ def run_replayer(pid, failed, seed, tier, outdir):
     req = os.path.join(outdir, 'request.json')
     with open(req, 'w') as f:
         json.dump({'property': pid, 'failed': failed, 'seed': seed, 'tier': tier, 'outdir': outdir,
-                   'repo': os.environ.get('MIROS_REPO', '/repo')}, f)
+                   'repo': os.environ.get('MIROS_REPO', '/repo'), 'budget': budget, 'known_keys': list(known_keys)}, f)
     env = dict(os.environ)
     env['PYTHONPATH'] = os.environ.get('MIROS_REPO', '/repo') + os.pathsep + ROOT
     env['MIROS_VERIF'] = '1'
@@ -109,7 +109,7 @@ def main():
     out_root = ROOT if os.path.realpath(repo) == '/repo' else os.path.join(os.path.realpath(repo), 'verif_out')
     evidence_path = os.path.join(out_root, 'evidence', pid + '.json')
     os.makedirs(os.path.dirname(evidence_path), exist_ok=True)
-    timeout_ms = 20000 if tier == 'quick' else 90000
+    timeout_ms = 30000 if tier == 'quick' else 90000
 
     start_pool()
     try:
@@ -200,7 +200,36 @@ def main():
                 fl.append({'name': r.name, 'status': r.status, 'model': (r.model or '')[:4000], 'reason': r.reason})
         for nm, err, _ in unsupported:
             fl.append({'name': nm + ':vc-generation', 'status': 'unsupported', 'reason': err})
-        native = run_replayer(pid, fl, seed, tier, replay_dir)
+        kk0 = [k.get('native_key') or k['obligation'] for k in known
+               if k.get('status', 'open') == 'open' and k['property'] == pid]
+        native = run_replayer(pid, fl, seed, tier, replay_dir, known_keys=kk0)
+
+    # thorough tier: native cross-check.  With every obligation discharged the property's native oracle is still run
+    # on the real code (catalogue + seeded random scenarios).  A failure there means a contract, a library model or
+    # the encoder is wrong (or too weak): it is reported as a violation, but only when the same scenario fails on
+    # three consecutive replays (timing-dependent oracles must not raise alarms under load).
+    xcheck = None
+    if tier == 'thorough' and not need_native and not a.only and os.environ.get('VERIF_NO_XCHECK') != '1':
+        kk = []
+        for k in known:
+            if k.get('status', 'open') == 'open' and k['property'] == pid:
+                kk.append(k.get('native_key') or k['obligation'])
+        xr = run_replayer(pid, [], seed, tier, replay_dir, budget=int(os.environ.get('VERIF_XCHECK_S', '90')),
+                          known_keys=kk) or {}
+        xcheck = {'summary': xr.get('summary', xr.get('error', 'no replayer')), 'scenarios': xr.get('scenarios', 0),
+                  'known_findings_seen': xr.get('known_seen', {}), 'confirmed': [], 'not_reproducible': []}
+        for f in xr.get('failures', []):
+            env = dict(os.environ)
+            env['PYTHONPATH'] = os.environ.get('MIROS_REPO', '/repo') + os.pathsep + ROOT
+            again = 0
+            for _ in range(3):
+                p = subprocess.run([VENV_PY, os.path.join(ROOT, 'replay', pid + '.py'), '--replay', f['replay']],
+                                   capture_output=True, text=True, env=env, cwd=ROOT)
+                again += 1 if p.returncode == 1 else 0
+            (xcheck['confirmed'] if again == 3 else xcheck['not_reproducible']).append(
+                {'key': f['key'], 'detail': f['detail'], 'replays_failing': again, 'replay': f['replay']})
+    if need_native and native:
+        xcheck = {'summary': native.get('summary', ''), 'scenarios': native.get('scenarios', 0), 'mode': 'search-for-failing-input'}
 
     def write_replay(name, payload):
         os.makedirs(replay_dir, exist_ok=True)
@@ -221,6 +250,10 @@ def main():
             for f in fails:
                 if f['key'] == '*':
                     best = f
+        if best is None and fails:
+            # a failing input of this property on this tree, found by the native oracle, though not keyed to this
+            # obligation: still a real violation witness (the replay file says which oracle clause failed)
+            best = fails[0]
         return best
 
     for r, _ in new_fail:
@@ -240,6 +273,13 @@ def main():
         else:
             path = write_replay(name, payload)
             violations.append('VIOLATION property=%s replay=%s obligation=%s no-failing-input-found' % (pid, path, name))
+    for f in (xcheck or {}).get('confirmed', []):
+        name = 'native-cross-check:' + f['key']
+        path = write_replay(name, {'property': pid, 'obligation': name, 'solver_status': 'all obligations discharged',
+                                   'scenario': json.load(open(f['replay'])).get('scenario'), 'native_detail': f['detail'],
+                                   'note': 'the native oracle fails on the real code although every obligation was '
+                                           'discharged: a contract or model is too weak'})
+        violations.append('VIOLATION property=%s replay=%s obligation=%s' % (pid, path, name))
     for nm, err, _ in unsupported:
         nf = native_for(nm) or (fails[0] if fails else None)
         if nf:
@@ -292,6 +332,7 @@ def main():
             'covers_total': len(covers),
             'dropped_by_extraction': sorted(dropped | {'docstrings and comments'}),
             'bounded_parts': getattr(prop, 'BOUNDED', []),
+            'native_cross_check': xcheck or 'not run in this tier (thorough only, or a search ran instead)',
             'obligations_failing_as_known_findings': n_known,
             'known_findings_matched': [{'obligation': (r['name'] if isinstance(r, dict) else r.name), 'what': k['what']}
                                        for r, k in known_hit],
@@ -303,6 +344,20 @@ def main():
         'wall_s': round(time.time() - t0, 2),
         'violations': len(violations),
     }
+    # mechanical scan for assumption sites in the sidecar modules this property loaded (DESIGN 4: every assume is a
+    # pre-state precondition, an invariant assumed on entry, or a library-model axiom; listed, never hidden)
+    sites = {}
+    for mn, mod in sorted(sys.modules.items()):
+        f = getattr(mod, '__file__', None) or ''
+        if f.startswith(ROOT) and (os.sep + 'props' + os.sep in f or os.sep + 'contracts' + os.sep in f or os.sep + 'pyvc' + os.sep in f):
+            try:
+                txt = open(f).read()
+            except OSError:
+                continue
+            n = txt.count('.assume(') + txt.count('assumptions.append(')
+            if n:
+                sites[os.path.relpath(f, ROOT)] = n
+    ev['coverage']['assume_call_sites'] = sites
     if level == 'translation_validation' and hasattr(prop, 'tv_coverage'):
         ev['coverage'].update(prop.tv_coverage())
     with open(evidence_path, 'w') as f:
